@@ -167,10 +167,21 @@ cls(
     notes="a location dict seen as its items() list (axis, value) in insertion order (assumed: dict.items)",
 )
 
+KIND_GLYPH, KIND_INFO, KIND_KERNING = 0, 1, 2
+
+
+def _math_kind(o):
+    import fontMath
+
+    return KIND_GLYPH if isinstance(o, fontMath.MathGlyph) else KIND_INFO if isinstance(o, fontMath.MathInfo) else KIND_KERNING if isinstance(o, fontMath.MathKerning) else -1
+
+
 cls(
     "MathObj",
-    fields={"data": MDATA},
-    notes="fontMath.MathGlyph / MathInfo / MathKerning: `data` is the abstract numerical content (assumed attribute bag)",
+    fields={"data": MDATA, "kind": INT},
+    views={"kind": _math_kind},
+    notes="fontMath.MathGlyph / MathInfo / MathKerning: `data` is the abstract numerical content, `kind` says which of the three classes "
+    "the object is (0 glyph, 1 info, 2 kerning) (assumed attribute bag)",
 )
 
 
@@ -286,6 +297,7 @@ def _deepcopy(ex, st, args, kwargs, node):
         raise Unsupported(f"deepcopy of {x.ty}", node)
     r = ex.new_object(st, "MathObj")
     ex.write_field(st, r, "data", ex.read_field(st, x, "data"), node)
+    ex.write_field(st, r, "kind", ex.read_field(st, x, "kind"), node)
     return r
 
 
@@ -306,6 +318,10 @@ def _vm_interpolate(ex, st, self, args, kwargs, node):
     r = ex.new_object(st, "MathObj")
     d = f(lift(self), lift(ex.read_field(st, loc, "pairs")), lift(masters, List(Ref("MathObj"))), content)
     ex.write_field(st, r, "data", Val(MDATA, d), node)
+    # the sum of scaled masters is an object of the masters' class (kind of the first master; unspecified without masters)
+    ms = lift(masters, List(Ref("MathObj")))
+    k0 = z3.Select(ex.field_array(st, "MathObj", "kind"), ms[0])
+    ex.write_field(st, r, "kind", Val(INT, z3.If(z3.Length(ms) > 0, k0, fresh(INT, "kind"))), node)
     return r
 
 
@@ -363,13 +379,15 @@ contract(
         # never a stored object: callers round() the result in place
         "new-object": "fresh(result)",
         "not-a-master": f"all(result is not m for m in self.masters) and all(result is not {_L2M}[k] for k in {_L2M})",
+        # an object of the masters' class (MathGlyph / MathInfo / MathKerning): callers use class-specific methods on it
+        "same-class": f"implies({_KEYOF} in {_L2M}, result.kind == {_L2M}[{_KEYOF}].kind) and implies({_KEYOF} not in {_L2M} and len(self.masters) > 0, result.kind == self.masters[0].kind)",
         # frame: the stored fontMath objects keep their content
         "masters-unchanged": f"all(m.data == old(self.content)[m] for m in self.masters) and all({_L2M}[k].data == old(self.content)[{_L2M}[k]] for k in {_L2M})",
     },
     requires=[
         # the objects held by a constructed Variator exist before the call (they were created by from_masters' callers)
-        "all(not fresh(m) for m in self.masters)",
-        f"all(not fresh({_L2M}[k]) for k in {_L2M})",
+        "all(allocated(m) for m in self.masters)",
+        f"all(allocated({_L2M}[k]) for k in {_L2M})",
     ],
     bounded_ensures={
         # run time only: the master copy is DEEP (rounding the instance in place must not reach the master's point lists / kerning dict)
@@ -544,9 +562,10 @@ contract(
     params={"cls": Const(_variator_class()), "items": ITEMS, "axis_order": List(STR)},
     returns=Ref("Variator"),
     # the objects passed in exist before the call
-    requires=["all(not fresh(items[b][1]) and not fresh(items[b][0]) for b in range(len(items)))"],
+    requires=["all(allocated(items[b][1]) and allocated(items[b][0]) for b in range(len(items)))"],
     ensures={
-        "new-variator": "fresh(result) and fresh(result.model)",
+        "new-variator": "fresh(result) and fresh(result.model) and allocated(result.model)",
+        "stored-objects-exist": "all(allocated(result.location_to_master[k]) for k in result.location_to_master)",
         # masters in source order, the very objects that were passed in
         "masters-in-order": "len(result.masters) == len(items) and all(result.masters[b] == items[b][1] for b in range(len(items)))",
         # the model is built from the locations in the same order
@@ -791,6 +810,7 @@ def _math_ctor(fn_name, nargs, src_classes):
         r = ex.new_object(st, "MathObj")
         f = ex.spec_decl(api_specfn(fn_name))
         ex.write_field(st, r, "data", Val(MDATA, f(*[lift(ex.read_field(st, a, "data")) for a in args])), node)
+        ex.write_field(st, r, "kind", Val(INT, z3.IntVal(KIND_INFO if fn_name == "mathinfo_of" else KIND_KERNING)), node)
         return r
 
     return model
@@ -833,7 +853,7 @@ def _collect_contract(fn, ctor_clause, extra_locals=None):
         props=["C19"],
         params={"designspace": Ref("DesignSpace"), "axis_bounds": BOUNDS},
         returns=List(Tuple(Ref("Location"), Ref("MathObj"))),
-        requires=[f"all(not fresh({_S}[a]) and not fresh({_S}[a].location) for a in range(len({_S})))"],
+        requires=[f"all(allocated({_S}[a]) and allocated({_S}[a].location) for a in range(len({_S})))"],
         ensures={
             # exactly the sources with font-level data: layer-only (sparse) sources are skipped, the default is always kept
             "count": "len(result) == " + _NK.format(f"len({_S})"),
@@ -1068,6 +1088,7 @@ def _mathglyph(ex, st, args, kwargs, node):
     r = ex.new_object(st, "MathObj")
     f = ex.spec_decl(api_specfn("mathglyph_of"))
     ex.write_field(st, r, "data", Val(MDATA, f(lift(ex.read_field(st, g, "data")))), node)
+    ex.write_field(st, r, "kind", Val(INT, z3.IntVal(KIND_GLYPH)), node)
     cont = fresh(List(INT), "contours")
     comp = fresh(List(INT), "components")
     st.assume((z3.Length(cont) == 0) == (lift(ex.read_field(st, g, "ncontours")) == 0))
@@ -1134,7 +1155,7 @@ contract(
     returns=List(Tuple(Ref("Location"), Ref("MathObj"))),
     requires=[
         f"0 <= {_DI} and {_DI} < len(source_layers)",  # Instantiator.__post_init__ computes it as an index into source_layers
-        "all(not fresh(source_layers[a][0]) and not fresh(source_layers[a][1]) for a in range(len(source_layers)))",
+        "all(allocated(source_layers[a][0]) and allocated(source_layers[a][1]) for a in range(len(source_layers)))",
         # len(glyph) is a count
         "all(implies(" + _HAS.format("a") + ", len(source_layers[a][1][glyph_name]) >= 0) for a in range(len(source_layers)))",
     ],
@@ -1148,6 +1169,11 @@ contract(
         # filtered: only non-empty masters remain
         "filtered-nonempty": f"implies({_DROP}, all(nonempty_master(result[k][1]) for k in range(len(result))))",
         "filtered-size": f"implies({_DROP}, len(result) <= " + _NH.format("len(source_layers)") + ")",
+        # every entry is a newly made (normalized location, MathGlyph) pair
+        "new-objects": "all(fresh(result[k][0]) and fresh(result[k][1]) and allocated(result[k][0]) and allocated(result[k][1]) for k in range(len(result)))",
+        "math-glyphs": "all(result[k][1].kind == 0 for k in range(len(result)))",
+        # the default source's glyph is always among the masters
+        "non-empty": "len(result) >= 1",
     },
     bounded_ensures={
         # run time only (the engine's model of a filtering comprehension keeps membership but not order; the membership proof needs a
@@ -1173,6 +1199,8 @@ contract(
                 "default-flag": f"default_glyph_empty == ({_DI} < j and {_EMP.format(_DI)})",
                 "other-flag": f"other_glyph_empty == any(a != {_DI} and {_HAS.format('a')} and {_EMP.format('a')} for a in range(j))",
                 "alive": "all(locations_and_masters[k][0] in alloc_view.allocated_locations and locations_and_masters[k][1] in alloc_view.allocated for k in range(len(locations_and_masters)))",
+                "new": "all(fresh(locations_and_masters[k][0]) and fresh(locations_and_masters[k][1]) for k in range(len(locations_and_masters)))",
+                "kinds": "all(locations_and_masters[k][1].kind == 0 for k in range(len(locations_and_masters)))",
                 "entries": f"all(implies({_HAS.format('a')}, " + _GM_ENTRY.format(L="locations_and_masters") + ") for a in range(j))",
             },
         )
